@@ -97,9 +97,11 @@ _Q_WORDS = {
 }
 
 
-def spellings(comp):
-    """All documented spellings of one component, as (family, text)."""
+def spellings(comp, bare=False):
+    """All documented spellings of one component, as (family, text). bare=True adds the bare two-letter quarter (clean_qq only)."""
     out = []
+    if bare and comp in QUARTERS:
+        out += [("bareq", comp), ("bareq", comp), ("bareq", comp.lower())]
     if comp in HALVES:
         c = comp
         out += [("glyph", f"{c}½"), ("slash", f"{c}/2"), ("bare", f"{c}2"), ("one", f"{c}1/2"),
@@ -131,7 +133,7 @@ def apply_case(text, how):
     return text
 
 
-JOINERS = ["", " ", " of ", " of the ", "  ", " of\n", "\n"]
+JOINERS = ["", " ", " of ", " of the ", "  ", " of\n", "\n", " OF ", " OF THE ", " Of The "]
 
 
 import functools
@@ -142,7 +144,7 @@ def chain_strategy(min_len=1, max_len=4):
     return st.lists(st.sampled_from(COMPONENTS), min_size=min_len, max_size=max_len)
 
 
-def spelled_chain_strategy(min_len=1, max_len=4):
+def spelled_chain_strategy(min_len=1, max_len=4, bare=False):
     """Draws {'chain': [...], 'spell': [[family, text], ...], 'joiners': [...], 'case': ...}."""
     @st.composite
     def build(draw):
@@ -150,7 +152,7 @@ def spelled_chain_strategy(min_len=1, max_len=4):
         spell = []
         joiners = []
         for i, comp in enumerate(chain):
-            fam, text = draw(st.sampled_from(spellings(comp)))
+            fam, text = draw(st.sampled_from(spellings(comp, bare)))
             text = apply_case(text, draw(st.sampled_from(CASES)))
             spell.append([fam, text])
             if i < len(chain) - 1:
